@@ -21,9 +21,10 @@ func TestMain(m *testing.M) {
 	// every property runs on one goroutine; a single P makes the stop-the-world allocation read-out of the
 	// decode-allocation oracle cheap (20x) and keeps it exact
 	runtime.GOMAXPROCS(1)
+	warmUp()
 	kit.Main(m, "C14")
 }
-func TestProps(t *testing.T)  { kit.RunAll(t) }
+func TestProps(t *testing.T)  { kit.RunAll(t); calibDump() }
 func TestReplay(t *testing.T) { kit.ReplayAll(t) }
 
 var allClasses = []string{classExpelled, classIndexOrder, classPairOrder, classHashLen, classRecipient}
@@ -169,6 +170,9 @@ func runRT(c RTCase) kit.Result {
 	if err != nil {
 		return kit.Fail("roundtrip-decode-error", "decoding the encoding of a generated %s failed: %v\n  %s", c.Type, err, clip(e1))
 	}
+	if fp := footprintOf(d); fp.slack != "" {
+		return kit.Fail("decode-overcapacity", "the %s decoded from its own %d-byte encoding keeps a slice with capacity far beyond its length: %s", c.Type, len(e1), fp.slack)
+	}
 	e3, err := ti.encode(d)
 	if err != nil {
 		return kit.Fail("encode-error", "encoding the decoded %s failed: %v", c.Type, err)
@@ -192,10 +196,6 @@ var _ = kit.Register(kit.Prop[RTCase]{
 // ---------------------------------------------------------------------------------
 // (c) accept => canonical, (d) safety: one decode of one byte string as one type
 
-// allocBound is the allocation allowed while decoding n input bytes. Deliberately loose: it is there to catch
-// length fields that make the decoder allocate what the input does not contain, not constant factors
-// (a list of n empty strings legitimately costs a 24-byte slice header per input byte, times slice growth).
-func allocBound(n int) uint64 { return 128<<10 + 256*uint64(n) }
 
 type outcome struct {
 	accepted bool
@@ -232,13 +232,22 @@ func decodeOne(ti *typeInfo, b []byte, measure bool) (out outcome) {
 	if panicked != nil {
 		return fail("decode-panic", "decoding %d bytes as %s panicked: %v\n  input: %s", len(b), ti.Name, panicked, clip(b))
 	}
-	if measure && after-before > allocBound(len(b)) {
-		return fail("decode-alloc", "decoding %d bytes as %s allocated %d bytes (bound %d)\n  input: %s", len(b), ti.Name, after-before, allocBound(len(b)), clip(b))
+	// what the decode produced (a failed decode of a type that is decoded in place leaves its partial result)
+	fp := footprintOf(obj)
+	if measure {
+		calibNote(ti, err == nil, after-before, fp.size, len(b))
+		if lim := allocLimit(ti, fp.size, len(b)); after-before > lim {
+			return fail("decode-alloc", "decoding %d bytes as %s (accepted: %v) allocated %d bytes; the result holds %d bytes; limit %d*result + b*input + %d = %d\n  input: %s",
+				len(b), ti.Name, err == nil, after-before, fp.size, allocA, allocSlack, lim, clip(b))
+		}
 	}
 	if err != nil {
 		return outcome{}
 	}
 	out.accepted = true
+	if fp.slack != "" {
+		return fail("decode-overcapacity", "the %s decoded from %d accepted bytes keeps a slice with capacity far beyond its length: %s\n  input: %s", ti.Name, len(b), fp.slack, clip(b))
+	}
 	var re []byte
 	if p := func() (p interface{}) {
 		defer func() { p = recover() }()
@@ -374,7 +383,7 @@ func genBytes(t *rapid.T, max int) []byte {
 func genHD(t *rapid.T) HDCase {
 	c := HDCase{Excl: knownExcl()}
 	names := typeNames()
-	switch uniform(t, 8, "shape") {
+	switch uniform(t, 9, "shape") {
 	case 0: // random bytes
 		c.Raw = genBytes(t, 80)
 	case 1: // a lying length field in front of random bytes
@@ -416,6 +425,8 @@ func genHD(t *rapid.T) HDCase {
 			return it
 		}
 		c.Raw = gen(0).ser()
+	case 5: // a large homogeneous list in the frame of a type that carries one, honest or with a corrupted tail
+		c.Raw = genBigList(t)
 	default: // the valid encoding of some type, decoded as every type
 		ti := registry[uniform(t, len(names), "type")]
 		enc, err := ti.encode(ti.build(newBuilder(genTape(t, 20), genSeed(t), 0, c.Excl)))
@@ -441,6 +452,110 @@ var entryPoints = []struct {
 	{"ucon.ExtractUconValidators(pos)", func(b []byte) { ucon.ExtractUconValidators(&types.Header{Validator: b}, params.LookBackPos) }},
 	{"ucon.ExtractUconValidators(cert)", func(b []byte) { ucon.ExtractUconValidators(&types.Header{Certificate: b}, params.LookBackCert) }},
 	{"staking.DecodeLogDataFromBytes", func(b []byte) { staking.DecodeLogDataFromBytes(b) }},
+}
+
+// bigFrames: how the node's types frame a long list of small elements.
+var bigFrames = []struct {
+	name  string
+	elem  string // hash | addr | announce | vote | bytes | pair | str
+	frame func(l *item) *item
+}{
+	{"SortedAddresses/ValidatorIndex", "addr", func(l *item) *item { return l }},
+	{"NodeData", "bytes", func(l *item) *item { return l }},
+	{"NewBlockHashesData", "announce", func(l *item) *item { return l }},
+	{"GetNodeDataMsgData", "hash", func(l *item) *item { return list(str([]byte{1}), l) }},
+	{"StakingRecord", "hash", func(l *item) *item { return list(str([]byte{9}), l) }},
+	{"EvidenceInactive", "addr", func(l *item) *item { return list(str([]byte{9}), l) }},
+	{"Log", "hash", func(l *item) *item { return list(str(make([]byte, 20)), l, str(nil)) }},
+	{"LogData", "str", func(l *item) *item { return list(str([]byte("t")), l, str(nil)) }},
+	{"UconValidators", "vote", func(l *item) *item { return list(str([]byte{1}), l, list(), list(), str(nil), str(nil), str(nil)) }},
+	{"EvidenceDoubleSign", "pair", func(l *item) *item { return list(str([]byte{7}), str([]byte{1}), l) }},
+	{"EvidenceDoubleSignV5", "pair", func(l *item) *item {
+		return list(str([]byte{7}), str([]byte{1}), str([]byte{2}), str([]byte{3}), l)
+	}},
+}
+
+func bigElem(kind string, i int, seed uint64) *item {
+	h := func(n int, k uint64) []byte {
+		b := make([]byte, n)
+		fill(b, seed+uint64(i)*131+k)
+		b[0] = byte(i >> 8) // ascending within 64k elements: valid for the ordered records too
+		b[1] = byte(i)
+		return b
+	}
+	switch kind {
+	case "hash":
+		return str(h(32, 0))
+	case "addr":
+		return str(h(20, 0))
+	case "announce":
+		return list(str(h(32, 0)), str([]byte{byte(i) | 1, byte(i >> 8)}))
+	case "vote":
+		return list(str([]byte{byte(i%120 + 1)}), str([]byte{3}), str(nil), str(h(8, 1)))
+	case "pair":
+		return list(str(h(32, 0)), str([]byte{0x81}))
+	case "str":
+		return str(nil)
+	default: // bytes: empty, short
+		if i%3 == 0 {
+			return str(nil)
+		}
+		return str(h(2+i%5, 2))
+	}
+}
+
+// genBigList draws hundreds to thousands of elements (thorough: up to ~8000, > 100 KB) and optionally replaces the
+// tail of the element list by junk of the same byte length, so that every length field stays honest.
+func genBigList(t *rapid.T) []byte {
+	fr := bigFrames[uniform(t, len(bigFrames), "frame")]
+	max := 2500
+	if kit.Thorough() {
+		max = 8000
+	}
+	n := 100 + uniform(t, 4096, "n")*uniform(t, 4096, "n2")*max/(4096*4096) // skewed to the lower end
+	seed := rapid.Uint64().Draw(t, "lseed")
+	l := list()
+	for i := 0; i < n; i++ {
+		l.Kids = append(l.Kids, bigElem(fr.elem, i, seed))
+	}
+	switch uniform(t, 6, "tail") {
+	case 0, 1: // honest
+	case 2: // nothing but junk, honestly framed
+		var size int
+		for _, k := range l.Kids {
+			size += len(k.ser())
+		}
+		junk := make([]byte, size)
+		switch uniform(t, 3, "junk") {
+		case 0:
+			for i := range junk {
+				junk[i] = 0xc0
+			}
+		case 1:
+			for i := range junk {
+				junk[i] = 0x80
+			}
+		default:
+			fill(junk, seed)
+		}
+		l.Kids = []*item{{Raw: junk}}
+	default: // the last 1..50 % of the elements replaced by junk of the same length
+		cut := n - 1 - uniform(t, n/2+1, "cut")
+		var size int
+		for _, k := range l.Kids[cut:] {
+			size += len(k.ser())
+		}
+		junk := make([]byte, size)
+		if uniform(t, 2, "junk") == 0 {
+			fill(junk, seed+1)
+		} else {
+			for i := range junk {
+				junk[i] = 0xc0
+			}
+		}
+		l.Kids = append(l.Kids[:cut], &item{Raw: junk})
+	}
+	return fr.frame(l).ser()
 }
 
 func runHD(c HDCase) kit.Result {
@@ -482,6 +597,15 @@ func runHD(c HDCase) kit.Result {
 	if accepted > 0 {
 		labels["accepted-by-some-type"] = true
 	}
+	if len(c.Raw) > 3000 {
+		labels["big-input"] = true
+		if accepted > 0 {
+			labels["big-input-accepted"] = true
+		}
+	}
+	if len(c.Raw) > 100000 {
+		labels["input>100KB"] = true
+	}
 	if len(c.Raw) > 9 && (c.Raw[0] >= 0xf8 || (c.Raw[0] >= 0xb8 && c.Raw[0] < 0xc0)) {
 		labels["long-form-head"] = true
 	}
@@ -490,7 +614,7 @@ func runHD(c HDCase) kit.Result {
 
 var _ = kit.Register(kit.Prop[HDCase]{
 	Name: "HostileDecode",
-	Rule: "a byte string (random bytes; a 2^20..2^64-1 length field in front of / inside well-formed data; nesting up to depth 5000; a random well-formed item tree; the valid or once-mutated encoding of a value of some type) decoded as EVERY registered type the way the node's callers decode it, and handed to ucon.Decode / ExtractConsensusData / ExtractUconValidators / staking.DecodeLogDataFromBytes; oracle: no panic, at most 128 KiB + 256 B per input byte allocated per decode (runtime.ReadMemStats TotalAlloc delta around the decode call), accept=>canonical for the listed types; non-trivial = non-empty input",
+	Rule: "a byte string (random bytes; a 2^20..2^64-1 length field in front of / inside well-formed data; nesting up to depth 5000; a random well-formed item tree; the valid or once-mutated encoding of a value of some type; 100-2500 (thorough 8000, > 100 KB) hashes / addresses / announcements / votes / strings / evidence pairs in the frame of a type that carries such a list, honest or with the tail or everything replaced by junk of the same length so that all length fields stay true) decoded as EVERY registered type the way the node's callers decode it, and handed to ucon.Decode / ExtractConsensusData / ExtractUconValidators / staking.DecodeLogDataFromBytes; oracle: no panic; allocation of each decode (runtime.ReadMemStats TotalAlloc delta around the call) at most 8x the bytes the (possibly partial) result holds by length + 6 B per input byte (120 B for types whose DecodeRLP fills a temporary) + 3 KiB; no slice of an accepted value with cap > 2*len+8; accept=>canonical for the listed types; non-trivial = non-empty input",
 	Gen:  genHD, Run: runHD,
-	Quick: 2500, Thorough: 8000, Chunk: 500, MinNonTrivialPct: 45,
+	Quick: 2000, Thorough: 8000, Chunk: 500, MinNonTrivialPct: 45,
 })
